@@ -145,7 +145,8 @@ def run(ctx):
   nul.IMPLICATIONS.clear()
   if c11.check_ruby_invariant(ctx):
     nul.IMPLICATIONS.append((c11.RUBY_GUARD, True, {"self.ruby_rbc", "self.ruby_rtc"}))
-  src = nul.NullSources(call_names={"get_caption_to_process"}, regex_methods=True, iter_funcs={"_none_terminated"}, fields={"ruby_rbc", "ruby_rtc"})
+  src = nul.NullSources(call_names={"get_caption_to_process"}, regex_methods=True, iter_funcs={"_none_terminated"}, fields={"ruby_rbc", "ruby_rtc"},
+                        getter_paths={"get_caption_to_process()"})
   reader_fs = common.funcs(ctx, common.READERS)
   nt = nul.check_sources(ctx, reader_fs, src, rule="NUL")
   src2 = nul.NullSources(getter_paths={"get_body()"})
